@@ -19,12 +19,15 @@ def run (args : List String) : String :=
     -- one writer, ids 1..n; three handlers: every message (room for all), every message (room
     -- for capB, never drained), the even actions (room for all)
     let n := n.toNat!; let capB := capB.toNat!
-    let e0 : EP := [(⟨1, 0, 0, n + 8, false⟩ : Spec), ⟨1, 0, 0, capB, false⟩, ⟨2, 0, 0, n + 8, false⟩].foldl
+    -- in front of them a handler that selects everything and removes itself on message 2 (as the
+    -- handler of a pending call does on its reply): the handlers behind it still get that message
+    let e0 : EP := [(⟨1, 0, 2, n + 8, false⟩ : Spec), ⟨1, 0, 0, n + 8, false⟩, ⟨1, 0, 0, capB, false⟩, ⟨2, 0, 0, n + 8, false⟩].foldl
       (fun e s => (make e s).1) {}
     let e := ((List.range n).map (fun i => ({ action := (i + 1) % 11, id := i + 1, isCall := false } : Msg))).foldl
       (fun e m => (dispatch e m).1) e0
-    let hs := e.slots.filterMap id
-    "valid " ++ " ".intercalate (hs.map (fun h => s!"h{h.uid}=[{" ".intercalate (h.received.map toString)}]"))
+    let hs := (e.slots.filterMap id ++ e.done).filter (fun h => h.uid != 0)
+    let one := (e.done.filter (fun h => h.uid == 0)).map (fun h => s!"one-shot=[{" ".intercalate (h.received.map toString)}]")
+    "valid " ++ " ".intercalate (one ++ hs.map (fun h => s!"h{h.uid - 1}=[{" ".intercalate (h.received.map toString)}]"))
   | _ => "bad-op"
 
 end QiVerif.Driver.C10
